@@ -2,8 +2,9 @@
      bool operator==(const SessionID& that)
         { return this != &that ? that._senderCompID() == _senderCompID() && that._targetCompID() == _targetCompID() : true; }
      bool operator!=(const SessionID& that)
-        { return this != &that ? that._senderCompID() != _senderCompID() && that._targetCompID() != _targetCompID() : false; }
-   (operator!= is the CONJUNCTION of the component inequalities: F28), same_sender_comp_id / same_target_comp_id
+        { return this != &that ? that._senderCompID() != _senderCompID() || that._targetCompID() != _targetCompID() : false; }
+   (since ab2c959; before that repair operator!= was the CONJUNCTION of the component inequalities, F28: kept
+   below as sid_ne_orig for the witness only), same_sender_comp_id / same_target_comp_id
    (the mirror test of Session::compid_check) and same_side_*.  Also the line protocol of harness/h_c23.cpp:
      case   "SID <sender1> <target1> <sender2> <target2>"        (hex, "-" = empty)
      result "EQ <a==b> NE <a!=b> SEQ <a==a> SNE <a!=a> MIR <a.same_sender_comp_id(target2)> <a.same_target_comp_id(sender2)>
@@ -18,7 +19,9 @@ Record sid := mkSid { sid_snd : bytes; sid_tgt : bytes }.
 
 (* this != &that *)
 Definition sid_eq (a b : sid) : bool := beq (sid_snd b) (sid_snd a) && beq (sid_tgt b) (sid_tgt a).
-Definition sid_ne (a b : sid) : bool := negb (beq (sid_snd b) (sid_snd a)) && negb (beq (sid_tgt b) (sid_tgt a)).
+Definition sid_ne (a b : sid) : bool := negb (beq (sid_snd b) (sid_snd a)) || negb (beq (sid_tgt b) (sid_tgt a)).
+(* operator!= as it was before ab2c959 (F28); not part of the tied model *)
+Definition sid_ne_orig (a b : sid) : bool := negb (beq (sid_snd b) (sid_snd a)) && negb (beq (sid_tgt b) (sid_tgt a)).
 (* this == &that *)
 Definition sid_eq_self (a : sid) : bool := true.
 Definition sid_ne_self (a : sid) : bool := false.
